@@ -1,5 +1,33 @@
-(* C03 - placeholder until ConcInv.v is delivered *)
-From LC Require Import Conc.
-Theorem C03_model_initial_state_idle : forall hp rc arrs t, thr (ginit hp rc arrs) t = Idle.
-Proof. reflexivity. Qed.
-Print Assumptions C03_model_initial_state_idle.
+(* C03 - element access is exclusive: the protocol statements.
+   A functor runs inside a critical section (state CS): by C03_stripe_has_one_owner no other thread
+   owns a stripe the running thread owns, by C03_critical_section_is_current the stripes it owns are
+   those of the current array for the current table size (so they are the stripes of the element's
+   two candidate buckets), and no whole-table operation runs.  Lost updates are excluded by
+   linearizability of same-key read-modify-write programs, checked on the real library (T2).
+   The data-race clause is partial: the model enumerates the accesses to size, generation and lock
+   list only; the unsynchronised read of the lock list is a recorded finding (known_findings.txt).
+   Statements only; closed by [exact] of lemmas of ConcInv.v. *)
+From Coq Require Import NArith List.
+From LC Require Import Conc ConcInv.
+Import ListNotations.
+
+Theorem C03_stripe_has_one_owner : forall hp0 rc0 arrs0, arrs_ok arrs0 -> forall s, reachable hp0 rc0 arrs0 s ->
+  forall t1 t2 a l, holds_lock (sh_ s) (thr s t1) a l -> holds_lock (sh_ s) (thr s t2) a l -> t1 = t2.
+Proof. exact single_owner. Qed.
+Print Assumptions C03_stripe_has_one_owner.
+
+Theorem C03_ownership_is_what_the_control_state_says : forall hp0 rc0 arrs0, arrs_ok arrs0 -> forall s, reachable hp0 rc0 arrs0 s ->
+  forall t a l, g_held (sh_ s) a l = Some t <-> holds_lock (sh_ s) (thr s t) a l.
+Proof. exact owner_iff. Qed.
+Print Assumptions C03_ownership_is_what_the_control_state_says.
+
+Theorem C03_critical_section_is_current : forall hp0 rc0 arrs0, arrs_ok arrs0 -> forall s, reachable hp0 rc0 arrs0 s ->
+  forall t sn sa x r, thr s t = CS sn sa (x :: r) \/ (exists l, thr s t = CW sn sa (x :: r) l) ->
+  sc sn = g_rc (sh_ s) /\ sh sn = g_hp (sh_ s) /\ sa + 1 = narr (sh_ s) /\ g_dirty (sh_ s) = false /\ (forall y, In y (x :: r) -> g_held (sh_ s) sa y = Some t /\ y < asz (sh_ s) sa) /\ (forall t', ~ all_holder (thr s t')).
+Proof. exact validated_current. Qed.
+Print Assumptions C03_critical_section_is_current.
+
+Theorem C03_no_critical_section_during_whole_table_operation : forall hp0 rc0 arrs0 s t, arrs_ok arrs0 -> reachable hp0 rc0 arrs0 s ->
+  validated (thr s t) -> forall t', ~ all_holder (thr s t').
+Proof. exact validated_excludes_all_holder. Qed.
+Print Assumptions C03_no_critical_section_during_whole_table_operation.
